@@ -464,31 +464,44 @@ def kclass(k: dict[str, Any]) -> str:
     return "+".join(on) if on else "plain"
 
 
-def evaluate(ctx: Ctx, variant: str, k: dict[str, Any], only: str | None = None) -> None:
+def evaluate(ctx: Ctx, variant: str, k: dict[str, Any]) -> None:
     from vgi_rpc.http import http_capabilities
     from vgi_rpc.http._testing import _SyncTestClient
 
     client, prefix = build(variant, k)
     optional_on = kclass(k) != "plain"
+    n_expected = len(expected_headers(k))
+    results: list[tuple[str, str, str, int, dict[str, str], list[tuple[str, str]]]] = []
     for kind, verb, path, body, headers in requests_for(k, prefix):
-        if only is not None and only != kind:
-            continue
         status, hdrs = issue(client, verb, path, body, headers)
+        caphdrs = {n: v for n, v in hdrs.items() if n.lower() in CAP_NAMES}
         bad = judge_headers(k, hdrs)
-        for what, name in bad:
-            ctx.fail(
-                f"{what}:{name}:{kind}",
-                f"{verb} {path} ({kind}, HTTP {status}, variant {variant}) under configuration {k}: capability header {name} is {what}; "
-                f"got {({n: v for n, v in hdrs.items() if n.lower() in CAP_NAMES})}, reference {expected_headers(k)}",
-                {"variant": variant, "knobs": k, "kind": kind},
-            )
+        results.append((kind, verb, path, status, caphdrs, bad))
         ctx.extra["responses"] += 1
         ctx.extra["cap_headers_checked"] += len(CAP_NAMES)
         sample = None
         if ctx.evaluations % 7919 == 0:
-            sample = {"variant": variant, "knobs": k, "kind": kind, "status": status, "capability_headers": {n: v for n, v in hdrs.items() if n.lower() in CAP_NAMES}}
-        ctx.case(sample=sample, nontrivial=f"{kind}:{status}" if optional_on else None, outcome=(kind, status, tuple(sorted((n.lower(), v) for n, v in hdrs.items() if n.lower() in CAP_NAMES))))
-    if only is None or only == "readback":
+            sample = {"variant": variant, "knobs": k, "kind": kind, "status": status, "capability_headers": caphdrs}
+        ctx.case(sample=sample, nontrivial=f"{kind}:{status}" if optional_on else None, outcome=(kind, status, tuple(sorted((n.lower(), v) for n, v in caphdrs.items()))))
+    # finding keys: a defect visible on every route kind of this app is one key per header (a factory-level cause);
+    # a response that lost the whole family is one key per route kind; anything else is keyed header x route kind
+    for what, name in sorted({b for r in results for b in r[5]}):
+        hit = [r for r in results if (what, name) in r[5]]
+        everywhere = len(hit) == len(results)
+        for kind, verb, path, status, caphdrs, bad in hit:
+            if not everywhere and not caphdrs and len(bad) == n_expected:
+                key = f"no-capability-headers:{kind}"
+            elif everywhere:
+                key = f"{what}:{name}"
+            else:
+                key = f"{what}:{name}:{kind}"
+            ctx.fail(
+                key,
+                f"{verb} {path} ({kind}, HTTP {status}, variant {variant}) under configuration {k}: capability header {name} is {what}; "
+                f"got {caphdrs}, reference {expected_headers(k)}",
+                {"variant": variant, "knobs": k, "kind": kind},
+            )
+    if True:
         probe = _SyncTestClient(client._client.app, prefix=prefix)  # no credentials: discovery must be auth-exempt
         try:
             caps = http_capabilities(client=probe)
@@ -561,6 +574,6 @@ def replay(ctx: Ctx, case: dict[str, Any]) -> None:
     ctx.extra.update({"responses": 0, "cap_headers_checked": 0, "readbacks": 0, "readbacks_with_cache_hint": 0, "apps": 0})
     old = _quiet()
     try:
-        evaluate(ctx, case["variant"], case["knobs"], only=case["kind"])
+        evaluate(ctx, case["variant"], case["knobs"])  # the whole app: keys depend on all route kinds
     finally:
         im.version = old  # type: ignore[assignment]
